@@ -42,6 +42,10 @@ def run_jit(chk, limit=None):
     nspecial = 0
     for key in sorted(k_ for k_ in set(res["py"]) | set(res["jit"]) if k_.startswith(("special", "rsl"))):
         a, b = res["py"].get(key), res["jit"].get(key)
+        # a kernel called with the vector its own class packs must not run off that vector, in whichever mode this shows
+        if key.startswith("rsl") and any("IndexError" in str(v) for v in (a if isinstance(a, list) else [a]) + (b if isinstance(b, list) else [b])):
+            bad.append(dict(kernel=key, python=a, jit=b, note="reads outside the argument vector the class packs"))
+            continue
         if isinstance(a, str) or isinstance(b, str) or b is None or a is None:
             if a != b:
                 bad.append(dict(kernel=key, python=a, jit=b))
@@ -79,5 +83,5 @@ def run_jit(chk, limit=None):
                                           distinct_nontrivial=len(kernels),
                                           rule="every translated njit kernel evaluated at %s with args %s by the interpreter (NUMBA_DISABLE_JIT=1) and by the compiled code "
                                                "(NUMBA_BOUNDSCHECK=1) in separate processes; relative difference <= 1e-9; exceptions must coincide; in addition the RSL objects that the light FL/gL/F2 and heavy CC "
-                                               "classes really build are called with the argument vectors the classes pack (dtype and length as packed), in both modes" % (POINTS, ARGS))
+                                               "classes and the target-mass-correction classes (esf/tmc.py, modes 1 and 3, F2/FL/F3/g1) really build are called with the argument vectors the classes pack (dtype and length as packed), in both modes" % (POINTS, ARGS))
     return bad
